@@ -53,7 +53,12 @@ impl TryFrom<DateTime<Utc>> for crate::Instant {
             .timestamp()
             .try_into()
             .map_err(|_| TimeError::InvalidTime)?;
+        // chrono represents a leap second as a sub-second part of 1_000_000_000 or more,
+        // which an `Instant` cannot hold
         let nanos = time.timestamp_subsec_nanos();
+        if nanos >= 1_000_000_000 {
+            return Err(TimeError::InvalidTime);
+        }
         Ok(crate::Instant { seconds, nanos })
     }
 }
